@@ -243,3 +243,25 @@ class GetTracefield1d(GenTraceHeader):
 
 for _f in (1, 189, 5, 193):
     register(type('GetTracefield1d', (GetTracefield1d,), dict(field=_f)), 'read.py::SgzReader.get_tracefield_1d', ['C04', 'C13'], [CFG_DEFAULT[3]], modes=('file',), tag=f'field {_f}')
+
+
+class AttributesOneTrace(GetTracefield1d):
+    """attributes(field)[k] for ONE trace number k (C13: same kind and length as segyio, whose Attributes.__getitem__ turns an integer into the
+    slice k:k+1 and so returns an array of length 1 holding the value of trace k).  SegyioEmulator.attributes IS get_tracefield_1d (contract
+    EmulatorInit), so the expression is a subscript of this function's result."""
+    field = 189
+
+    def post(self, c, a, result):
+        g = a['self'].geo
+        n = self.ntraces(g)
+        j = c.sym_int('tk', lo=0, name='trace_number')
+        c.assume(lt(j, n))
+        I = c.ex.interp
+        one = I.stdlib.getitem(I, result, j, None)
+        ok = isinstance(one, SArray) and len(one.shape) == 1
+        c.ensure(mk_bool(ok) and eq(one.shape[0], 1), 'subscript_by_one_trace_number.array_of_length_1_as_in_segyio')
+        if ok:
+            c.ensure(eq(one.fn((0,)), footer_word(add(a['_offs'][1].value, mul(4, j)))), 'subscript_by_one_trace_number.value_of_that_trace')
+
+
+register(AttributesOneTrace, 'read.py::SgzReader.get_tracefield_1d', ['C13'], [CFG_DEFAULT[3]], modes=('file',), tag='attributes(189)[k]')
